@@ -35,7 +35,7 @@ Fixpoint cwalk2 (n : nat) (W : wsys) (labels : list string) (known : PositiveSet
       let '(ks, rnd3) := take 4 rnd2 in
       let ws := map (fun pe => (weight stats (fst pe), pe)) (w_procs W) in
       let total := fold_left (fun acc w => Nat.add acc (fst w)) ws O in
-      match pick_weighted ws (Nat.modulo (Nat.mul rp 7919) (Nat.max 1 total)) with
+      match pick_weighted ws (N.to_nat (N.modulo (N.mul (N.of_nat rp) 7919%N) (N.of_nat (Nat.max 1 total)))) with
       | None => (known, rev out, rev trace, st)
       | Some (proc, (oset, table)) =>
           match proc_ids W st oset with
